@@ -756,10 +756,16 @@ def c02_extra(tier='quick'):
     return out
 
 
-def c02(tier='quick'):
+def c02(tier='quick', seed=0):
     if tier == 'quick':
-        base = arith(consumers=('local', 'cmp')) + arithlit(tier='quick') + compare() + casts() + unary() + control() + composites() + refs()
-        return base + castuse(tier) + c02_extra(tier) + c08(tier) + c18(tier)
+        T6 = [I8, I32, I64, U8, U32, U64]
+        base = arith(types=T6, consumers=('local', 'cmp')) + arithlit(types=T6, tier='quick') + compare(types=T6) + casts() + unary(types=T6) + control() + composites() + refs()
+        out = base + castuse(tier) + c02_extra(tier) + c08(tier) + c18(tier)[::2]
+        # encoder validation by witness replay (two compiles, one native run, one node run) on a third of the templates
+        # per run (which third depends on the seed); counterexamples are always replayed
+        for i, t in enumerate(out):
+            t.meta = dict(t.meta, replay_witness=(i % 3 == seed % 3))
+        return out
     return c01_thorough() + c02_extra(tier) + c04(tier) + c08(tier) + c18(tier) + c05(tier, 0)
 
 
